@@ -5,8 +5,9 @@
    A value that sits exactly on a declared maximum is well typed, so C01_roundtrip says it is
    accepted.  Reader level, for every buffer, count and maximum: a count above the maximum is
    InvalidLength before anything else happens; a count whose padded payload is not present is
-   InvalidLength.  That the emitted call carries the declared maximum (literal or constant,
-   inline or through a typedef) is Emit.decode_array, tied by K2 on every bounded declarator;
+   InvalidLength.  C05_bound_carried / C05_position_over_max: the emitted reader call carries
+   the declared maximum (literal or named constant, any base type) and a count above it is
+   InvalidLength at that position whatever follows (Emit itself is tied to the code by K2);
    the typedef'd variable-length opaque loses its bound in Typedef::new (finding F3).
    Proofs in XdrProofs.NoPrefix / RuntimeProofs. *)
 From XdrProofs Require Import RuntimeProofs NoPrefix.
@@ -63,6 +64,25 @@ Theorem C05_fixed_opaque_short :
   forall n s, remaining s < n + pad_length n -> read_bytes n s = Err InvalidLength s.
 Proof. exact read_bytes_short. Qed.
 Print Assumptions C05_fixed_opaque_short.
+
+(* the declared maximum -- literal or named constant -- is the maximum the emitted reader call
+   carries, for every base type and both resolution modes *)
+Theorem C05_bound_carried :
+  forall A t s n r,
+    resolve_size A s false = EOk n ->
+    exists e, decode_array A (AVar t (Some s)) r = EOk e /\ carries_max e (Some n).
+Proof. exact bound_carried. Qed.
+Print Assumptions C05_bound_carried.
+
+(* and at that position a count / length word above it is InvalidLength, whatever follows,
+   before anything is read or reserved *)
+Theorem C05_position_over_max :
+  forall md rec lf A t s n e a o w rest l,
+    decode_array A (AVar t (Some s)) UseAlias = EOk e -> resolve_size A s false = EOk n ->
+    len w = 4 -> n < be_dec w ->
+    eval_dexp md rec lf e (mk a o (w ++ rest) l) = Err InvalidLength (mk a (o + 4) rest l).
+Proof. exact position_over_max. Qed.
+Print Assumptions C05_position_over_max.
 
 (* the bound written in the specification is the bound the reader is called with *)
 Example C05_bound_carried_literal_and_constant :
